@@ -51,6 +51,7 @@ def run(prog, chk):
     from . import lin_buffer, c08
     lin_buffer.run(prog, chk, c08.methods(prog), rid="C13.i")
     send_reports_accepted_bytes(prog, chk, "C13.j")
+    client_write_table(prog, chk, "C13.l")
     # the send backlog is a Buffer that is freed whenever it has drained and grown again by the next partial send: the pairing of
     # `buffer = 0` with `_capacity = 0` (C08.b0) and the terminator obligation (C08.a) decide clauses of this property as well
     from .server_common import Only
@@ -395,3 +396,58 @@ def send_reports_accepted_bytes(prog, chk, rid):
                 "the accepted prefix twice" % bad, evals=n_ev)
     else:
         chk.ok(rid, f, "send returns what was accepted, -1 only when nothing was", where, "%d outcome sequences evaluated" % n_ev, evals=n_ev)
+
+
+def client_write_table(prog, chk, rid):
+    """ClientImpl::write as a decision table: for every outcome of the direct send, the bytes that end up in the backlog are exactly the
+    bytes the operating system did not take - evaluated with the machine's integer conversions (a `-1` that reaches an unsigned
+    comparison is a very large number)."""
+    chk.rule(rid, "FIN: ClientImpl::write evaluated over (backlog empty?, outcome of the direct send, error code): it appends exactly the "
+                  "unsent tail (data + k, size - k) for k bytes taken - k = 0 on would-block -, nothing when all was taken, the whole "
+                  "argument behind an existing backlog, and reports failure on 0 / a real error", floor=1)
+    f = sfn(prog, P + "ClientImpl::write")
+    where = "%s:%s" % (f.file, f.line)
+    sends = [c for c in q.calls(f) if f.nodes[c].get("callee") == "Socket::send"]
+    apps = [c for c in q.calls(f) if (f.nodes[c].get("callee") or "").endswith("Buffer::append") and "_sendBuffer" in f.r(c)]
+    if len(f.params) < 2 or not sends or not apps:
+        raise AnalysisBroken("ClientImpl::write: direct send / backlog append not found")
+    dn, sn = f.params[0]["n"], f.params[1]["n"]
+    DATA, SIZE = 4096, 100
+    scen = [("an empty backlog and a send that took everything", 1, SIZE, 0, (1, None)),
+            ("an empty backlog and a send that took 40 of 100 bytes", 1, 40, 0, (1, (DATA + 40, 60))),
+            ("an empty backlog and a send that would block", 1, -1, 0, (1, (DATA, SIZE))),
+            ("an empty backlog and a send that failed", 1, -1, 104, (0, None)),
+            ("an empty backlog and a send that found the connection closed", 1, 0, 0, (0, None)),
+            ("a backlog that is not empty", 0, None, 0, (1, (DATA, SIZE)))]
+    bad = None
+    for what, empty, out, err, (want_ret, want_app) in scen:
+        val = {dn: DATA, sn: SIZE, "this->_sendBuffer.isEmpty()": empty, "Socket::getLastError()": err, "this->_suspended": 0, "postponed": 0}
+        if out is not None:
+            for c in sends:
+                val[fin.key(f, c)] = out
+        seen, end, fv = fin.walk_vals(f, f.entry, val)
+        if isinstance(end, str):
+            bad = (what, "the outcome depends on something else (%s)" % end)
+            break
+        if out is None and any(c in seen for c in sends):
+            bad = (what, "the direct send is attempted although older bytes are still waiting (they would be overtaken)")
+            break
+        ret = fin.eval_expr(f, f.nodes[end]["c"][0], fv) if f.nodes[end]["c"] else None
+        done = [c for c in apps if c in seen]
+        got_app = None
+        if done:
+            a_ = q.call_args(f, done[-1])
+            got_app = (fin.eval_expr(f, a_[0], fv), fin.eval_expr(f, a_[1], fv)) if len(a_) == 2 else ("?", "?")
+        if len(done) > 1:
+            bad = (what, "the argument is appended to the backlog %d times" % len(done))
+            break
+        if bool(ret) != bool(want_ret) or got_app != want_app:
+            def show(a):
+                return "nothing" if a is None else "(data + %s, %s bytes)" % (a[0] - DATA if isinstance(a[0], int) else a[0], a[1])
+            bad = (what, "it returns %s and queues %s; required: %s and %s" % (bool(ret), show(got_app), bool(want_ret), show(want_app)))
+            break
+    if bad:
+        chk.bad(rid, f, "write-outcome-table", where,
+                "ClientImpl::write with %s: %s - bytes the peer never receives (or receives twice) although write() reported success" % bad, evals=len(scen))
+    else:
+        chk.ok(rid, f, "write queues exactly the unsent tail for %d outcomes of the direct send" % len(scen), where, "evaluation of the function body per outcome", evals=len(scen))
